@@ -381,6 +381,14 @@ func (m *machine) step(no int, s Step) error {
 		if s.Serve == nil || s.Serve.Resp == nil {
 			return ev.Errf("harness/pool-step", "step %d: serve without a response", no)
 		}
+		if s.Serve.Mismatch && s.Env != refcodec.FrameBare {
+			// the server expects another kind of call than the envelope announces: an error, and
+			// nothing else - the readers that were borrowed must not be handed back twice
+			if _, _, _, merr := serveOnce(in, s.Plan, 4, s.Serve, nil, 0); merr == nil {
+				return ev.Errf("pool/serve/mismatch-accepted", "step %d: a %s request of type Call was accepted by a server expecting type OneWay", no, s.Env)
+			}
+			break
+		}
 		h, req, out, err := serveOnce(in, s.Plan, 1, s.Serve, nil, 0)
 		if err != nil {
 			return ev.Errf("pool/serve/error", "step %d: serving a %s request (%s): %v", no, s.Env, s.Serve, err)
